@@ -95,6 +95,9 @@ fn main() {
         "C14" => {
             if let Some(p) = cli.replay {
                 let v = trv_core::load_replay(&p);
+                if v["kind"] == "does_not_return" {
+                    *c14::REPLAYING.lock().unwrap() = Some(p.clone());
+                }
                 let rep = c14::run(Tier::Quick);
                 let kind = v["kind"].as_str().unwrap_or("");
                 let site = v["site"].as_str().unwrap_or("");
